@@ -14,7 +14,7 @@ from .ragcheck import replay_fresh, _h
 
 TIERS = {
     "quick": {"C11": {"runs": 80000}, "C12": {"runs": 20000, "k": 5}},
-    "thorough": {"C11": {"runs": 2500000}, "C12": {"runs": 500000, "k": 8}},
+    "thorough": {"C11": {"runs": 2000000}, "C12": {"runs": 400000, "k": 8}},
 }
 MAX_RAW_PER_CHUNK = 10
 MAX_CLASSES = 12
